@@ -17,19 +17,21 @@ from common import g_nat, g_bool, g_list
 
 TRUSTED = [
     "harness/detsched.py: cooperative fakes of multiprocessing.Queue/Event/Process (mirrors CPython 3.12 queues.py: "
-    "semaphore released by get, unbounded buffer, one-item feeder flushes, FIFO pipe, Empty only on an empty pipe, "
+    "semaphore released by get, unbounded buffer, one-item feeder flushes, FIFO pipe, Empty on an empty pipe or (contention runs) "
+    "while another worker is inside get() on the same queue, "
     "join_thread after the buffer is flushed)",
     "callbacks are atomic between two sync points (they touch no scheduler-visible state)",
 ]
 ASSUMPTIONS = [
-    "get(timeout) raises Empty only while the pipe is empty (reader-lock contention timeouts are outside the property's quantifier)",
+    "get(timeout) raises Empty while the pipe is empty, or (one third of the cases, model flag v_cont) while another worker "
+    "is inside get() on the same queue and may hold its reader lock; 'is inside get()' over-approximates 'holds the lock'",
     "termination is judged under any schedule that does not poll forever while a non-polling action stays enabled (fairness)",
 ]
 
 COQ_DEFS = r"""
 Definition in_tbl (l : list nat) (i : nat) : bool := existsb (Nat.eqb i) l.
 Record vcase := mkVC {
-  c_n : nat; c_par : nat; c_cap : nat; c_pcap : nat; c_fixed : bool; c_bad : list nat;
+  c_n : nat; c_par : nat; c_cap : nat; c_pcap : nat; c_fixed : bool; c_cont : bool; c_bad : list nat;
   c_trace : list (list act * act);
   o_returned : bool; o_started : list (nat * nat); o_finished : list nat; o_exit : list nat }.
 Definition eq_pairs (a b : list (nat * nat)) : bool :=
@@ -42,7 +44,7 @@ Definition exit_codes (s : vstate) : list nat :=
 (* 0 agree; 1000+i: trace step i disagrees (enabled set or chosen action);
    1 returned flag; 2 started; 3 finished; 4 worker exit states *)
 Definition chk (c : vcase) : nat :=
-  match replay (in_tbl (c_bad c)) (init (c_n c) (c_par c) (c_cap c) (c_pcap c) (c_fixed c)) (c_trace c) 0 with
+  match replay (in_tbl (c_bad c)) (init_c (c_n c) (c_par c) (c_cap c) (c_pcap c) (c_fixed c) (c_cont c)) (c_trace c) 0 with
   | inr i => 1000 + i
   | inl s =>
       if negb (Bool.eqb (returned s) (o_returned c)) then 1
@@ -77,6 +79,8 @@ def g_act(name):
         return f"(ATimeout {w})"
     if kind == "IsSet":
         return f"(AIsSet {w})"
+    if kind == "CTimeout":
+        return f"(ACTimeout {w})"
     raise ValueError(name)
 
 
@@ -97,6 +101,10 @@ def make_chooser(rng, mode, length):
         if mode == "eager_poll":
             pref = [i for i, e in enumerate(enabled) if e[0] in ("Timeout", "IsSet")]
             p = 0.7
+        elif mode == "contend":
+            # Empty under reader-lock contention whenever it is possible
+            pref = [i for i, e in enumerate(enabled) if e[0] == "CTimeout"]
+            p = 0.6
         elif mode == "starve_feeder":
             pref = [i for i, e in enumerate(enabled) if e[0] not in ("Flush", "FeederExit")]
             p = 0.95
@@ -287,7 +295,8 @@ def stage_transform_deep(rng, bad_items, quick):
 STAGES = [stage_visit, stage_visit, stage_transform, stage_multi_tan, stage_multi_wcs]
 
 
-def run_case(rng, stage_fn, with_faults=False, quick=True, replay=None, forced_bad=None):
+def run_case(rng, stage_fn, with_faults=False, quick=True, replay=None, forced_bad=None, contention=False,
+             mode_override=None):
     desc, items, cap_mult, call = stage_fn(rng, None, quick)
     n = len(items)
     par = rng.choice((2, 2, 3, 5))
@@ -298,11 +307,14 @@ def run_case(rng, stage_fn, with_faults=False, quick=True, replay=None, forced_b
     if forced_bad is not None:
         bad = set(forced_bad)
     mode = rng.choice(MODES)
+    if mode_override:
+        mode = mode_override
     length = rng.choice((40, 120, 400))
     chooser = make_chooser(rng, mode, length)
     if replay is not None:
         chooser = detsched.trace_chooser(replay["chosen"])
         par, pcap, bad = replay["par"], replay["pcap"], set(replay["bad"])
+        contention = bool(replay.get("cont", False))
     sref = [None]
     rec = Rec(sref)
 
@@ -320,7 +332,7 @@ def run_case(rng, stage_fn, with_faults=False, quick=True, replay=None, forced_b
     detsched.Scheduler.__init__ = hooked
     try:
         with contextlib.redirect_stdout(sink), contextlib.redirect_stderr(sink):
-            outcome, val, S = detsched.run_under((), fn, pipe_cap=pcap, chooser=chooser)
+            outcome, val, S = detsched.run_under((), fn, pipe_cap=pcap, chooser=chooser, contention=contention)
     finally:
         detsched.Scheduler.__init__ = orig_init
     exits = []
@@ -333,6 +345,7 @@ def run_case(rng, stage_fn, with_faults=False, quick=True, replay=None, forced_b
         else:
             exits.append(1 + (1 if a.exitcode == 1 else 0))
     return dict(desc=desc, n=n, par=par, cap=cap_mult * par, pcap=min(pcap, 1 << 20), bad=sorted(bad), mode=mode,
+                cont=bool(contention),
                 outcome=outcome, error=repr(val) if outcome == "raised" else None,
                 trace=S.trace, started=rec.started, finished=rec.finished, exits=exits,
                 payload_ok=rec.payload_ok, notes=rec.notes, spawned=S.n_workers)
@@ -340,8 +353,9 @@ def run_case(rng, stage_fn, with_faults=False, quick=True, replay=None, forced_b
 
 def g_case(r, fixed=True):
     exits = [e if e is not None else 0 for e in r["exits"]]
-    return ("(mkVC %d %d %d %d %s %s %s %s %s %s %s)" % (
-        r["n"], r["par"], r["cap"], r["pcap"], g_bool(fixed), g_list([str(b) for b in r["bad"]]),
+    return ("(mkVC %d %d %d %d %s %s %s %s %s %s %s %s)" % (
+        r["n"], r["par"], r["cap"], r["pcap"], g_bool(fixed), g_bool(r.get("cont", False)),
+        g_list([str(b) for b in r["bad"]]),
         g_trace(r["trace"]), g_bool(r["outcome"] == "returned"),
         g_list([f"({i}, {w})" for i, w in r["started"]]), g_list([str(i) for i in r["finished"]]),
         g_list([str(e) for e in exits])))
@@ -422,7 +436,9 @@ def run(ctx, V):
         sub = rng.randrange(1 << 30)
         srng = common.rng_for(sub, "C03case")
         si = k % len(STAGES)
-        r = run_case(srng, STAGES[si], quick=quick)
+        # every third case admits Empty under reader-lock contention; half of those prefer it
+        r = run_case(srng, STAGES[si], quick=quick, contention=(k % 3 == 2),
+                     mode_override="contend" if k % 6 == 5 else None)
         r["subseed"], r["stage_idx"] = sub, si
         results.append(r)
     terms = []
@@ -439,10 +455,12 @@ def run(ctx, V):
     bad = common.coq_eval_sharded(COQ_DEFS, terms, "chk", ["Model.VisitPar"], shard=40, jobs=14, name="c03")
     hist = {}
     nontrivial = set()
+    n_ctimeouts = 0
     for j, r in enumerate(results):
-        key = f"{r['desc']['stage']}/par{r['par']}/{r['mode']}"
+        key = f"{r['desc']['stage']}/par{r['par']}/{r['mode']}" + ("/contention" if r.get("cont") else "")
         hist[key] = hist.get(key, 0) + 1
         kinds = {ch[0] for _en, ch in r["trace"]}
+        n_ctimeouts += sum(1 for _en, ch in r["trace"] if ch[0] == "CTimeout")
         if "Timeout" in kinds and r["n"] >= 2:
             nontrivial.add((str(r["desc"]), r["par"], r["pcap"], tuple(ch for _e, ch in r["trace"])))
     for t_i, j in enumerate(idx):
@@ -454,7 +472,8 @@ def run(ctx, V):
                    (f"trace step {code - 1000} (enabled set / chosen action)" if code >= 1000 else
                     {1: "returned", 2: "started (item, worker) sequence", 3: "finished items", 4: "worker exit states",
                      0: "agrees; C03 predicate fails on implementation"}[code]))
-            case = dict(desc=r["desc"], par=r["par"], pcap=r["pcap"], bad=r["bad"], subseed=r.get("subseed"),
+            case = dict(desc=r["desc"], par=r["par"], pcap=r["pcap"], bad=r["bad"], cont=r.get("cont", False),
+                        subseed=r.get("subseed"),
                         stage_idx=r.get("stage_idx"), chosen=[list(ch) for _e, ch in r["trace"]])
             V.disagreement(rel, case, "model replay of the recorded trace; theorem visit_terminal",
                            dict(outcome=r["outcome"], started=r["started"][:20], exits=r["exits"], why=why), bool(why))
@@ -463,10 +482,12 @@ def run(ctx, V):
     n_fork = real_fork_runs(rng, 4 if quick else 24, V)
     return dict(evaluations=len(results) + n_fork, distinct_nontrivial=len(nontrivial), real_fork_runs=n_fork,
                 traces_validated_against_impl=len(terms),
+                cases_with_lock_contention=sum(1 for r in results if r.get("cont")),
+                contended_empty_exceptions_taken=n_ctimeouts,
                 scheduler_steps=sum(len(r["trace"]) for r in results),
                 rule="each case: one of the four real stages with random item set (pyramid kind/depth/filter/apex or input "
                      "count), par in {2,3,5}, pipe capacity in {1,2,3,unbounded}, schedule drawn from a biased chooser "
                      "(uniform / eager polling / starved feeder / producer first / slow worker / timeouts right before the "
-                     "flag) for 40-400 steps then a progress-first fallback; non-trivial = distinct (stage, params, action "
+                     "flag / contended Empty) for 40-400 steps then a progress-first fallback; non-trivial = distinct (stage, params, action "
                      "sequence) with >= 2 items and at least one queue timeout",
                 input_histogram=hist, samples=samples)
